@@ -761,3 +761,17 @@ def c04(tier, rng, fam='C04'):
                 b.step('send', c=1, pay='x').step('close', c=1).step('hdr', c=1).step('recv', c=1, n=2).step('trl', c=1)
             out.append(b.q().done())
     return out
+
+
+# ------------------------------------------------------------- C01 (storm) -----
+
+def c01_storm(tier, rng, fam='C01'):
+    """waves of unary calls released at the same instant on one connection; each caller checks its own reply"""
+    n, reps = (1280, 8) if tier == 'quick' else (12800, 16)
+    out = []
+    for s_ in range(reps):
+        big = bool(s_ % 2)
+        out.append(dict(fam=fam, tag='storm of %d unary calls, 64 at a time, %s payloads, seed %d' % (n, 'large' if big else 'small', s_),
+                        runner='history', n=n // (4 if big else 1), par=64, storm=True, big=big, seed=rng.randrange(1 << 30),
+                        steps=[dict(op='storm')]))
+    return out
